@@ -94,18 +94,26 @@ def ops_term(ops_obj, itn):
 
 
 def read_dump(path):
-    recs = []
+    """generator over the JSON-lines records of a dump file (dumps can be large: never hold them all)"""
     if not os.path.exists(path):
-        return recs
+        return
     with open(path, encoding="utf-8", errors="replace") as f:
         for line in f:
             line = line.strip()
             if not line: continue
             try:
-                recs.append(json.loads(line))
+                yield json.loads(line)
             except Exception:
-                recs.append({"kind": "garbled", "tid": "", "v": {}})
-    return recs
+                yield {"kind": "garbled", "tid": "", "v": {}}
+
+
+def src_lines(pkg_dir):
+    n = 0
+    for root, _, files in os.walk(os.path.join(pkg_dir, "src")):
+        for fn in files:
+            if fn.endswith(".sw"):
+                with open(os.path.join(root, fn), errors="replace") as f: n += sum(1 for _ in f)
+    return n
 
 
 def prepare_pkg(src, dst_base, name=None):
